@@ -179,7 +179,7 @@ func H_C02(v *zzverif.T) {
 	paramNames := m.ParamNames()
 	paramSnaps := make([]*zzverif.Snap, len(paramNames))
 	for i, n := range paramNames {
-		paramSnaps[i] = v.Snapshot(m.parameters[n])
+		paramSnaps[i] = v.Snapshot(zzModelParam(m, n))
 	}
 	mkInputs := func(ds []zzTData) (Tensors, []tensor.Tensor, []*zzverif.Snap) {
 		ts := Tensors{}
@@ -207,7 +207,7 @@ func H_C02(v *zzverif.T) {
 			v.AssertUnchanged("C02.caller-tensor-unmodified:"+tag, list[i], snaps[i])
 		}
 		for i, n := range paramNames {
-			v.AssertUnchanged("C02.weight-unmodified:"+tag, m.parameters[n], paramSnaps[i])
+			v.AssertUnchanged("C02.weight-unmodified:"+tag, zzModelParam(m, n), paramSnaps[i])
 		}
 		// (writes that leave every value as it was - same-value stores, write-and-restore - do not break this
 		// property; they are C17's business, where the frame monitor is confirmed under the race detector)
